@@ -40,6 +40,8 @@ func main() {
 			"Printf 70% (pool lines of lengths 0..2x limit with shared prefixes so that truncations collide; fresh lines; lines sized to fit the free space exactly, with and without eviction of k oldest lines; strings with format verbs as format and as argument), " +
 			"ExpireLogs 18% (cut before all / after all / between / exactly on / 1 ns around stored timestamps, oldest-line-only, partial expiry of a repeated line), DumpLogEntries 12%. " +
 			"Every 100th history is staged on a large configuration (max 900..6000 bytes, line limit 3..20): 64..183 short lines are stored (old lines refreshed now and then), one ExpireLogs removes the oldest 30/50/51/60/75/90/100% of the stored lines, then fresh lines (full-length, random, exact-fit) fill the log to the byte limit and 10..40 lines beyond; once or twice, followed by 20 random operations. " +
+			"One history per child (and every 1000th) is a hot-line history: one stored line is logged 4100..9100 more times (in bulks without a dump in between, judged afterwards: one new timestamp per call inside its call, nothing else changed), then other lines, the hot line again, fills, evictions, expiries. " +
+			"Every 100th history is huge: line limit 32767/32768/40000/65535/65536/70000 with max 140 KB..1 MB, 50 operations with lines of 32767/32768/32769/40000/65535/65536/65537/70000 bytes (cut to the limit), repeats, exact fits, expiries. " +
 			"Natural-expiry scenarios (expiry 15 / 40 ms, real sleep >= 3x expiry): a filled log ending with line X, the sleep, then with no other call in between a repeat of X / an input that truncates to X / a fresh line that only fits if the expired bytes were given back / a fresh line then X, optionally followed by lines filling the log to exactly max, then a dump. " +
 			"Non-trivial = a history in which an expiry removed at least one line and a later fresh line was stored into space that only exists if the expired bytes were given back, or a later Printf needed an eviction; distinct by (configuration, history seed).",
 		Assumptions: []string{
@@ -75,6 +77,10 @@ func main() {
 			c.Require("staged.histories", 20)
 			c.Require("expire.majority_of_large_log", 20)
 			c.Require("printf.evicts_after_majority_expiry_of_large_log", 200)
+			c.Require("hot.histories", 4)
+			c.Require("max.timestamps_of_one_line", 4100)
+			c.Require("huge.histories", 20)
+			c.Require("huge.lines_over_32767_bytes", 100)
 			c.Require("natural.decided", 12)
 			c.Require("natural.repeat_of_expired_line_decided", 4)
 			c.Require("natural.fresh_into_expired_space_decided", 4)
@@ -188,6 +194,7 @@ type hist struct {
 	sawExpiryRemoval bool
 	sawMajority      bool // an expiry removed more than half of a log of >= 64 lines
 	staged           bool
+	kind             string // "", "hot", "huge"
 	nontrivial       bool
 }
 
@@ -200,8 +207,12 @@ func (h *hist) replay() interface{} {
 	}
 	st := map[string][]int64{}
 	for k, v := range h.s {
+		if len(v) > 8 {
+			st[abbr(k)] = []int64{int64(v[0].Sub(h.t0)), int64(len(v) - 2), int64(last(v).Sub(h.t0))} // first, number omitted, last
+			continue
+		}
 		for _, t := range v {
-			st[k] = append(st[k], int64(t.Sub(h.t0)))
+			st[abbr(k)] = append(st[abbr(k)], int64(t.Sub(h.t0)))
 		}
 	}
 	return map[string]interface{}{"batch": h.b, "config": h.c, "history_seed": h.seed, "operations": ops, "omitted": cutNote,
@@ -305,7 +316,7 @@ func (h *hist) observe() state {
 // ---------------------------------------------------------------- Printf
 
 func (h *hist) doPrintf(format string, args []interface{}, note string) {
-	h.ops = append(h.ops, opRec{Op: "printf", Format: format, Args: args, Note: note})
+	h.ops = append(h.ops, opRec{Op: "printf", Format: abbr(format), Args: abbrArgs(args), Note: note})
 	want := fmt.Sprintf(format, args...)
 	key := want
 	if len(key) > h.c.Limit {
@@ -582,9 +593,42 @@ func randText(rng *rand.Rand, n int) string {
 
 var verbStrings = []string{"%d", "100%", "%s and %s", "%%", "%v", "%!", "%[3]*.[2]*[1]f", "%x%x%x", "load 50% done", "%", "%z", "%+v|%#v", "%08.3f%%", "%c%c", "%q", "a%-5sb", "%[2]d", "%T", "%*d", "%.*s"}
 
+// abbr shortens very long lines in replays (the batch seed regenerates them).
+func abbr(s string) string {
+	if len(s) <= 300 {
+		return s
+	}
+	return fmt.Sprintf("%s...[%d bytes in all]...%s", s[:80], len(s), s[len(s)-20:])
+}
+
+func abbrArgs(args []interface{}) []interface{} {
+	long := false
+	for _, a := range args {
+		if x, ok := a.(string); ok && len(x) > 300 {
+			long = true
+		}
+	}
+	if !long {
+		return args
+	}
+	out := make([]interface{}, len(args))
+	for i, a := range args {
+		if x, ok := a.(string); ok {
+			out[i] = abbr(x)
+		} else {
+			out[i] = a
+		}
+	}
+	return out
+}
+
 func (h *hist) fresh(n int) string {
 	h.ctr++
 	s := fmt.Sprintf("%d.", h.ctr)
+	if n > 600 { // long lines: a repeated random chunk is enough and cheap
+		chunk := randText(h.rng, 61)
+		return (s + strings.Repeat(chunk, n/61+1))[:n]
+	}
 	if n <= len(s) {
 		// too short for a counter: random text of that length (may repeat a stored line; the model does not care)
 		return randText(h.rng, n)
@@ -764,6 +808,171 @@ func (h *hist) genExpire() {
 	}
 }
 
+// Hot-line histories: one line is repeated thousands of times (a long-lived
+// client repeating the same failure line), then other lines, the hot line
+// again, evictions and dumps. The bulk of the repeats is issued without a dump
+// in between and judged afterwards by the same rule as a single repeat: state
+// unchanged except one new timestamp per call, each inside its call.
+var hotCfgs = []cfg{{60, 10}, {100, 10}, {2000, 8}, {1000, 200}, {40, 10}, {64, 8}}
+
+func (h *hist) doRepeatBulk(line string, k int) {
+	s0 := h.s
+	if _, ok := s0[line]; !ok || strings.Contains(line, "%") {
+		return
+	}
+	h.ops = append(h.ops, opRec{Op: fmt.Sprintf("printf x %d", k), Format: abbr(line), Note: "the same stored line again and again, no other call in between"})
+	marks := make([]time.Time, k+1)
+	h.guard("Printf", func() {
+		for i := 0; i < k; i++ {
+			marks[i] = time.Now()
+			h.l.Printf(line)
+		}
+		marks[k] = time.Now()
+	})
+	if h.dead {
+		return
+	}
+	s1 := h.observe()
+	if h.dead {
+		return
+	}
+	h.r.Count("printf.calls", int64(k))
+	h.r.Count("printf.repeat", int64(k))
+	for key, ts := range s1 {
+		if key == line {
+			continue
+		}
+		old, ok := s0[key]
+		if !ok {
+			h.fail("phantom-line", "after repeating %s %d times the dump holds %s, which was not stored before", q(line), k, q(key))
+			return
+		}
+		if !sameStamps(old, ts) {
+			h.fail("timestamps-changed", "repeating %s %d times changed the timestamps of the other line %s", q(line), k, q(key))
+			return
+		}
+	}
+	for key := range s0 {
+		if _, ok := s1[key]; !ok {
+			if key == line {
+				h.fail("newest-line-missing", "line %s is not in the dump after it was logged %d more times", q(line), k)
+			} else {
+				h.fail("evicted-on-repeat", "logging the already stored line %s %d more times evicted %s", q(line), k, q(key))
+			}
+			return
+		}
+	}
+	prev, got := s0[line], s1[line]
+	if len(got) != len(prev)+k || !sameStamps(prev, got[:len(prev)]) {
+		h.fail("newest-line-wrong-timestamps", "line %s had %d timestamps, after logging it %d more times it has %d (or older ones changed)", q(line), len(prev), k, len(got))
+		return
+	}
+	for i := 0; i < k; i++ {
+		if t := got[len(prev)+i]; t.Before(marks[i]) || t.After(marks[i+1]) {
+			h.fail("update-time-outside-call", "timestamp %d of %s is %v, the call ran from %v to %v", len(prev)+i, q(line), t.Sub(h.t0), marks[i].Sub(h.t0), marks[i+1].Sub(h.t0))
+			return
+		}
+	}
+	h.r.Max("max.timestamps_of_one_line", int64(len(got)))
+	h.s = s1
+}
+
+func (h *hist) genHot() {
+	rng := h.rng
+	h.r.Count("hot.histories", 1)
+	maxLen := h.c.Limit
+	if h.c.Max/4 < maxLen {
+		maxLen = h.c.Max / 4
+	}
+	for i := rng.Intn(3); i > 0; i-- {
+		h.doPrintf(h.fresh(1+rng.Intn(maxLen)), nil, "hot:before")
+	}
+	hot := "H" + randText(rng, rng.Intn(maxLen))
+	h.doPrintf(hot, nil, "hot")
+	total := 4100 + rng.Intn(900)
+	if rng.Intn(4) == 0 {
+		total += 4096 // beyond twice the first power of two above 4000
+	}
+	for total > 0 && !h.dead {
+		k := total
+		if rng.Intn(2) == 0 && k > 1000 {
+			k = 500 + rng.Intn(k-500)
+		}
+		h.doRepeatBulk(hot, k)
+		total -= k
+		if rng.Intn(2) == 0 && !h.dead {
+			h.doDump()
+		}
+	}
+	// other lines, the hot line again, room needed, dumps: order and eviction are judged as always
+	for round := 0; round < 3 && !h.dead; round++ {
+		for i := 1 + rng.Intn(3); i > 0 && !h.dead; i-- {
+			h.doPrintf(h.fresh(1+rng.Intn(maxLen)), nil, "hot:other")
+		}
+		if h.dead {
+			return
+		}
+		h.doPrintf("%s", []interface{}{hot}, "hot:again")
+		for i := 0; i < 12 && !h.dead && size(h.s)+2*h.c.Limit <= h.c.Max; i++ {
+			h.doPrintf(h.fresh(h.c.Limit), nil, "hot:fill")
+		}
+		for i := 1 + rng.Intn(3); i > 0 && !h.dead; i-- {
+			h.doPrintf(h.fresh(1+rng.Intn(h.c.Limit)), nil, "hot:evict")
+		}
+		if !h.dead && rng.Intn(2) == 0 {
+			h.genExpire()
+		}
+	}
+}
+
+// Huge histories: line limits around 2^15 and 2^16 and a maximum of a few
+// hundred KB, lines of lengths around 32767/32768/65535/65536 that are stored,
+// expire and get evicted.
+const hugeEvery = 100
+
+var hugeCfgs = []cfg{{200000, 32767}, {300000, 32768}, {400000, 40000}, {1000000, 70000}, {262144, 65536}, {140000, 70000}, {524288, 65535}}
+
+func (h *hist) genHuge() {
+	rng := h.rng
+	h.r.Count("huge.histories", 1)
+	lens := []int{32767, 32768, 32769, 40000, 65535, 65536, 65537, 70000, 70001, 20000, 50000, 100, 1}
+	for i := 0; i < 50 && !h.dead; i++ {
+		switch x := rng.Intn(100); {
+		case x < 55:
+			n := lens[rng.Intn(len(lens))]
+			if n > h.c.Limit+2 {
+				n = h.c.Limit - 2 + rng.Intn(5) // around the limit, a little above is cut
+			}
+			if rng.Intn(6) == 0 {
+				n = 1 + rng.Intn(h.c.Limit)
+			}
+			line := h.fresh(n)
+			if n > 32767 && n <= h.c.Limit {
+				h.r.Count("huge.lines_over_32767_bytes", 1)
+			}
+			if rng.Intn(2) == 0 {
+				h.doPrintf(line, nil, "huge")
+			} else {
+				h.doPrintf("%s", []interface{}{line}, "huge")
+			}
+		case x < 65 && len(h.s) > 0:
+			ks := orderByLast(h.s)
+			h.doPrintf(ks[rng.Intn(len(ks))], nil, "huge:stored")
+		case x < 75:
+			room := h.c.Max - size(h.s)
+			if room >= 2 && room%2 == 0 && room/2 <= h.c.Limit {
+				h.doPrintf(h.fresh(room/2), nil, "huge:exact-fit")
+			} else {
+				h.doPrintf(h.fresh(1+rng.Intn(h.c.Limit)), nil, "huge")
+			}
+		case x < 92:
+			h.genExpire()
+		default:
+			h.doDump()
+		}
+	}
+}
+
 // Staged histories: large limits so that hundreds of short lines are stored,
 // cohorts of lines, one ExpireLogs that removes a chosen share of the stored
 // lines (more than half, exactly half, less), then fresh lines up to the
@@ -843,9 +1052,16 @@ func runHistory(b run.Batch, r *ev.Result, idx int) {
 	seed := b.Seed*1000003 + int64(idx)
 	rng := rand.New(rand.NewSource(seed))
 	h := &hist{r: r, b: b, rng: rng, c: pickCfg(rng, idx), seed: seed, s: state{}}
-	if idx%stagedEvery == 7 {
+	switch {
+	case idx%stagedEvery == 7:
 		h.staged = true
 		h.c = stagedCfgs[rng.Intn(len(stagedCfgs))]
+	case idx == 3 || idx%1000 == 503:
+		h.kind = "hot"
+		h.c = hotCfgs[rng.Intn(len(hotCfgs))]
+	case idx%hugeEvery == 57:
+		h.kind = "huge"
+		h.c = hugeCfgs[rng.Intn(len(hugeCfgs))]
 	}
 	n := 60
 	switch x := rng.Intn(100); {
@@ -867,6 +1083,14 @@ func runHistory(b run.Batch, r *ev.Result, idx int) {
 	if h.staged {
 		h.genStaged()
 		n = 20
+	}
+	if h.kind == "hot" {
+		h.genHot()
+		n = 15
+	}
+	if h.kind == "huge" {
+		h.genHuge()
+		n = 0
 	}
 	for i := 0; i < n && !h.dead; i++ {
 		switch x := rng.Intn(100); {
